@@ -20,7 +20,7 @@ ASSUMPTIONS = ["reference: Plackett integral by scipy.integrate.quad (oracles/bv
 H_Q = [-1000.0, -200.0, -40.0, -8.0, -4.0, -2.0, -1.0, -0.5, 0.0, 0.3, 1.0, 2.0, 4.0, 8.0, 40.0, 200.0, 1000.0]
 H_T = [-1e5, -1000.0, -300.0, -100.0, -40.0, -12.0, -8.0, -6.0, -4.0, -3.0, -2.0, -1.5, -1.0, -0.5, -0.1, 0.0, 0.1, 0.3, 0.7, 1.0, 1.5, 2.0, 3.0, 4.0, 6.0, 8.0, 12.0, 40.0, 100.0, 300.0, 1000.0, 1e5]
 H = H_Q
-RS_POS = [0.1, 0.29, 0.3, 0.31, 0.5, 0.74, 0.75, 0.76, 0.9, 0.92, 0.925, 0.93, 0.95, 0.99, 0.999, 0.99999]
+RS_POS = [1e-7, 1e-6, 1e-5, 1e-4, 1e-3, 1e-2, 0.1, 0.29, 0.3, 0.31, 0.5, 0.74, 0.75, 0.76, 0.9, 0.92, 0.925, 0.93, 0.95, 0.99, 0.999, 0.99999]
 TOL = 1e-7
 TAILS = [3.0, 3.5, 4.0, 4.25, 4.5, 4.75, 5.0, 5.02, 5.1, 5.19, 5.3, 5.6, 6.0, 6.5, 7.0]
 TAIL_PARTNERS = [-2.0, -0.5, 0.0, 1.0, 3.0]
@@ -125,7 +125,7 @@ def run_case(case, ctx):
         entries.append(("bvn_cdf", lambda: ik.bvn_cdf(x, y, mu_x=mu[0], mu_y=mu[1], sigma_xx=vx, sigma_yy=vy, sigma_xy=0.0)))
     else:
         entries.append(("bvn_cdf", lambda: ik.bvn_cdf(x, y, mu_x=mu[0], mu_y=mu[1], sigma_xx=vx, sigma_yy=vy, sigma_xy=cov)))
-        ctx.nontriv("correlated_%s" % ("below_0.3" if abs(r) < 0.3 else "below_0.75" if abs(r) < 0.75 else "below_0.925" if abs(r) < 0.925 else "from_0.925"))
+        ctx.nontriv("correlated_%s" % ("weak_below_0.01" if abs(r) <= 0.01 else "below_0.3" if abs(r) < 0.3 else "below_0.75" if abs(r) < 0.75 else "below_0.925" if abs(r) < 0.925 else "from_0.925"))
     for name, thunk in entries:
         v = np.asarray(ctx.call(thunk), dtype=float)
         ctx.valid(len(ref))
